@@ -24,30 +24,7 @@ FAMS = ["gosem"]
 
 # Genuine defects demonstrated on the unchanged tree (see the report of this family); the integrator
 # fixes them in /repo or moves the entries into known-findings.json.
-PROPOSED_KNOWN = [
-    {"kind": "known", "signature": {"fam": "intalu", "op": "shl", "cause": "negative-count-no-panic"},
-     "what": "x << y with a negative run-time count gives 0 silently instead of the run-time panic 'negative shift amount' (run.go OpShl: uint(count))"},
-    {"kind": "known", "signature": {"fam": "intalu", "op": "shr", "cause": "negative-count-no-panic"},
-     "what": "x >> y with a negative run-time count gives 0 / -1 silently instead of the run-time panic 'negative shift amount' (run.go OpShr: uint(count))"},
-    {"kind": "known", "signature": {"fam": "initorder", "cause": "function-dependencies-not-followed"},
-     "what": "package-level variables are sorted by their DIRECT dependencies only (checker_package.go sortDeclarations treats every function as resolved): var a = f(); var b = 1; func f() int { return b } initialises a before b"},
-    {"kind": "known", "signature": {"fam": "initorder", "cause": "recursion-reported-as-cycle"},
-     "what": "a recursive function (or mutually recursive functions) reachable from a package-level variable initialiser is rejected as 'typechecking loop' (checker_package.go checkDepsPath reports any repeated node on the path, not only the variable itself)"},
-    {"kind": "known", "signature": {"fam": "minigo", "shape": "loops:break-outer", "cause": "wrong-output"},
-     "what": "break L from an inner for loop, L labelling an outer loop, only leaves the inner loop: the emitter ignores the label of break (emitter_statements.go case *ast.Break)"},
-    {"kind": "known", "signature": {"fam": "minigo", "shape": "loops:continue-outer", "cause": "hostpanic"},
-     "what": "continue with a label is not implemented: Build panics into the host with 'internal error: not implemented' instead of compiling it (emitter_statements.go case *ast.Continue)"},
-    {"kind": "known", "signature": {"fam": "minigo", "shape": "loops:continue-own-label", "cause": "hostpanic"},
-     "what": "continue with a label is not implemented (even the loop's own label): Build panics into the host"},
-    {"kind": "known", "signature": {"fam": "minigo", "shape": "strings:range-continue-label", "cause": "hostpanic"},
-     "what": "continue with a label inside for-range is not implemented: Build panics into the host"},
-    {"kind": "known", "signature": {"fam": "minigo", "shape": "closures:append", "cause": "hostpanic"},
-     "what": "append(fs, func() int {...}) on a slice of functions panics into the host: reflect.Set: value of type *runtime.callable is not assignable to type func() int (run.go appendSlice)"},
-    {"kind": "known", "signature": {"fam": "minigo", "shape": "closures:loopvar", "cause": "wrong-output"},
-     "what": "closures capturing the variable of a 3-clause for loop share one variable for all iterations (pre-Go-1.22 semantics); gc (go >= 1.22) gives every iteration its own copy"},
-    {"kind": "known", "signature": {"fam": "intalu", "op": "not", "k": "uintptr", "cause": "hostpanic"},
-     "what": "^x with x of type uintptr panics in the emitter (constant.go maxUnsigned has no entry for reflect.Uintptr): Build panics into the host"},
-]
+PROPOSED_KNOWN = []   # four defects found by this check were fixed in /repo; the others (negative shift count, labelled break/continue, pre-1.22 loop variables) are known findings (known-findings.json)
 
 BASE = {"intalu": 0, "initorder": 1000000, "conv": 2000000, "minigo": 3000000}
 
@@ -117,10 +94,8 @@ def part_conv(ctx):
     wd = ctx.stage("mc_conv", FAMS)
     invs = ["ImplMeetsRef", "EncDec", "DecEnc", "RangeIdx"]
     rig.write_cfg(wd / "MC_StrConv.cfg", constants={"MaxPieces": ctx.pick(2, 3)}, invariants=invs)
-    r = ctx.tlc(wd, "MC_StrConv", workers=4, timeout=1500, coverage=not ctx.quick)
+    r = ctx.tlc(wd, "MC_StrConv", workers=4, timeout=1500)
     info = {"states": r.distinct, "transitions": r.generated, "mc_wall_s": round(r.wall, 1), "mc_invariants": invs}
-    if not ctx.quick:
-        info["actions_never_taken"] = r.coverage_zero()
     if not r.ok:
         if r.invariant_violated:
             info["model_counterexample"] = {"invariants": r.invariant_violated, "tlc_out": str(wd / "MC_StrConv.out")}
